@@ -104,7 +104,7 @@ def job_exec(args):
             sides = spec['sides']
             hashseeds = spec['hashseeds']
         else:
-            argv, m = X.gen_cmdline(rng, env=spec.get('env'), kinds=spec.get('kinds'))
+            argv, m = X.gen_cmdline(rng, env=spec.get('env'), kinds=spec.get('kinds'), want=spec.get('want', ()))
             npulses = m.min_pulses() + 2 * len(m.geo)
             sides = [gen.env_side(rng, True, 'hist'), gen.env_side(rng, True, 'orac'),
                      gen.env_side(rng, True, 'hist')]
@@ -379,11 +379,18 @@ def run_tier(tier, seed, workers, budget_s, n_worlds, n_exec, n_real, n_traced=0
             futs = {}
             # exec-level first: they are the slowest single jobs
             rng = random.Random(seed * 7919 + 13)
-            floor_exec = [(e, [k]) for k in ('impedance', 'skin_c') for e in ('free', 'ideal')]
+            # exec-level floor: features whose processing could depend on
+            # string-hash order or on the process environment
+            floor_exec = [dict(env=e, kinds=[k]) for k in ('impedance', 'skin_c') for e in ('free', 'ideal')]
+            floor_exec += [dict(env='free', want=['transform_key_tie']), dict(env='ideal', want=['transform_key_tie']),
+                           dict(env='free', want=['transform_key_tie', 'rotate', 'translate']),
+                           dict(want=['geo_all_ge2_not_all']), dict(want=['explicit_tags']),
+                           dict(want=['multi_media']), dict(kinds=['impedance', 'rlc', 'trap', 'laplace']),
+                           dict(kinds=['skin_r', 'insulation'])]
             for i in range(n_exec):
                 spec = dict(seed=seed * 1000003 + 500000 + i, scratch=scratch, real=(i < n_real))
                 if i < len(floor_exec):
-                    spec['env'], spec['kinds'] = floor_exec[i]
+                    spec.update(floor_exec[i])
                 futs[ex.submit(job_exec, spec)] = 'exec'
             for p in gen.floor_plans(seed, tier):
                 futs[ex.submit(job_world, ('plan', p))] = 'world'
